@@ -120,6 +120,17 @@ struct World {
     foreign_pages: Vec<(Arena, u8)>,
     foreign_pages_checked: u64,
     refused_attempts: u64,
+    /// start addresses of every function the harness knows (targets and never-named neighbours), sorted
+    starts: Vec<usize>,
+}
+
+/// end of the entry slot of the function at `addr`: 16 bytes, or less where the next function the harness knows
+/// starts earlier (its bytes are that function's, not part of this one's slot)
+fn slot_end(starts: &[usize], addr: usize) -> usize {
+    match starts.iter().find(|s| **s > addr) {
+        Some(n) if *n < addr + 16 => *n,
+        _ => addr + 16,
+    }
 }
 
 fn exec_anon_pages() -> BTreeSet<usize> {
@@ -147,7 +158,7 @@ pub fn run(ctx: &Ctx) {
     // self-check of the pool before anything is patched
     for (i, t) in pool.targets.iter().enumerate() {
         let v = (t.call)();
-        if v != t.orig || images[i].len() < 16 {
+        if v != t.orig || images[i].len() < 5 {
             eprintln!("HARNESS-ERROR pool self-check failed for {} got {} want {}", t.name, v, t.orig);
             std::process::exit(2);
         }
@@ -203,7 +214,11 @@ pub fn run(ctx: &Ctx) {
         foreign_pages: Vec::new(),
         foreign_pages_checked: 0,
         refused_attempts: 0,
+        starts: Vec::new(),
     };
+    w.starts = w.pool.targets.iter().map(|t| t.addr).chain(w.pool.neighbours.iter().map(|n| n.0)).chain(w.pool.synth.slots.iter().map(|s| s.0)).collect();
+    w.starts.sort();
+    w.starts.dedup();
     // warm-up lifetime so that lazily created process state (thread-local storage, allocator arenas)
     // exists before the baselines are taken
     // It also validates the pool: the bytes at every target's recorded address must change when a
@@ -229,7 +244,7 @@ pub fn run(ctx: &Ctx) {
                 let newm = new_lib_mappings(&led0);
                 let d = maps::diff(s0, &s1);
                 for &(a, _o, _n) in &d.changed {
-                    if !(a >= t.addr && a < t.addr + 16) && !newm.iter().any(|(m0, l)| a >= *m0 && a < m0 + l) {
+                    if !(a >= t.addr && a < slot_end(&w.starts, t.addr)) && !newm.iter().any(|(m0, l)| a >= *m0 && a < m0 + l) {
                         out::outcome(warm_idx, "warmup/each-target-once", Verdict::Violated, "c03:byte-outside-entry-slot-changed", &J::new().x("addr", a).x("named_function", t.addr).s("target", &t.name).s("mapping", &s1.name_of(a)).s("during", "single install in warm-up"));
                         ip::lib(|| drop(inj));
                         std::process::exit(75);
@@ -237,6 +252,15 @@ pub fn run(ctx: &Ctx) {
                 }
             }
             ip::lib(|| drop(inj));
+            if let Some(s0) = &snap0 {
+                // ... and after the removal: whatever the entry slot looks like (C02's business), nothing else differs
+                let s2 = maps::snapshot();
+                let d = maps::diff(s0, &s2);
+                if let Some(&(a, _o, _n)) = d.changed.iter().find(|(a, _, _)| !(*a >= t.addr && *a < slot_end(&w.starts, t.addr))) {
+                    out::outcome(warm_idx, "warmup/each-target-once", Verdict::Violated, "c03:byte-outside-entry-slot-changed", &J::new().x("addr", a).x("named_function", t.addr).s("target", &t.name).s("mapping", &s2.name_of(a)).s("during", "removal of a single install in warm-up"));
+                    std::process::exit(75);
+                }
+            }
             if !changed {
                 // the bytes at the address the harness recorded for this target did not change: either the
                 // harness computed the address wrongly or the library patched somewhere else. The monitors
@@ -567,7 +591,7 @@ fn lifetime(w: &mut World, mons: &Mons, p: &Plan, rng: &mut Rng) -> (Verdict, St
                 let mut lo = usize::MAX;
                 let mut hi = 0usize;
                 for &(a, _o, _n) in &d.changed {
-                    if a >= taddr && a < taddr + 16 {
+                    if a >= taddr && a < slot_end(&w.starts, taddr) {
                         w.diff_entry += 1;
                         lo = lo.min(a);
                         hi = hi.max(a);
@@ -719,7 +743,7 @@ fn lifetime(w: &mut World, mons: &Mons, p: &Plan, rng: &mut Rng) -> (Verdict, St
             let now = img(t.addr);
             if now != w.images[i] {
                 let reps = per.get(&i).cloned().unwrap_or(0);
-                let d = detail.s("target", &t.name).s("bytes_now", &out::hex(&now[..16])).s("bytes_before", &out::hex(&w.images[i][..16])).n("times_installed_in_this_lifetime", reps);
+                let d = detail.s("target", &t.name).s("bytes_now", &out::hex(&now[..now.len().min(16)])).s("bytes_before", &out::hex(&w.images[i][..w.images[i].len().min(16)])).n("times_installed_in_this_lifetime", reps);
                 let sig = if reps >= 2 { "c02:bytes-not-restored:same-target-installed-more-than-once" } else { "c02:bytes-not-restored" };
                 return (Verdict::Violated, sig.into(), d);
             }
@@ -749,7 +773,7 @@ fn lifetime(w: &mut World, mons: &Mons, p: &Plan, rng: &mut Rng) -> (Verdict, St
         let d = maps::diff(w.base_snap.as_ref().unwrap(), &snap);
         w.bytes_compared += d.compared as u64;
         // bytes of a named function's own entry slot that did not come back are C02's business, not C03's
-        let foreign: Vec<&(usize, u8, u8)> = d.changed.iter().filter(|(a, _, _)| !w.pool.targets.iter().any(|t| *a >= t.addr && *a < t.addr + 16)).collect();
+        let foreign: Vec<&(usize, u8, u8)> = d.changed.iter().filter(|(a, _, _)| !named.iter().any(|ti| *a >= w.pool.targets[*ti].addr && *a < slot_end(&w.starts, w.pool.targets[*ti].addr))).collect();
         if let Some(&&(a, o, n)) = foreign.first() {
             w.diff_other += foreign.len() as u64;
             return (Verdict::Violated, "c03:byte-differs-after-scope-exit".into(), detail.x("addr", a).n("old", o).n("new", n).s("mapping", &snap.name_of(a)));
